@@ -27,7 +27,7 @@ int vprop_fork = 1;
 int vprop_cpu_limit_s = 60;
 const char *vprop_class_names[V_NCLASS] = {
   "mode_jit", "mode_backup", "mode_emulate", "mode_disable_orc", "lazy_init", "init_function", "compat_bytecode", "compat_old", "no_backup",
-  "inline", "multi_function", "two_d", "accumulators", "typed_params", "float_ops", "memcpy_memset", "difference_within_float_freedom", "refused_by_compat_level", "first_use_without_orc_init", NULL
+  "inline", "multi_function", "two_d", "accumulators", "typed_params", "float_ops", "memcpy_memset", "difference_within_float_freedom", "refused_by_compat_level", "first_use_without_orc_init", "variable_classes_filled_to_limit", "refused_c_target_register_limit", NULL
 };
 
 void vprop_init (int argc, char **argv) { (void) argc; (void) argv; /* orc_init happens in the child: ORC_CODE is read there */ }
@@ -263,17 +263,19 @@ void vprop_case (VChoices *c, VResult *r)
   Buf caller = { NULL, 0, 0 };
   char dir[400], cmd[2400], err[1500], path[500], sig[V_SIG_MAX];
   const char *scratch = v_arg ("scratch", "/verif/_work/scratch"), *orcc = v_arg ("orcc", NULL), *inc = v_arg ("cg_inc", "");
-  static const char *compats[4] = { NULL, "0.4.8", "0.4.14.1", "0.4.30" };
+  static const char *compats[6] = { NULL, "0.4.8", "0.4.14.1", "0.4.30", "0.4.5", "0.4.6" };
   static const char *modes[4] = { NULL, "backup", "emulate", NULL };
   int nf, f, mode, lazy, compat, nobackup, use_inline, len = 0, rcx, i;
   void *handle;
   void (*initfn) (void) = NULL;
   uint64_t h = 0;
+  uint32_t craw;
 
   if (c->n >= 3 && c->v[0] == 0xC7C7C7C8u) { first_use (r, (int) (c->v[1] % 3), (int) (c->v[2] % 2)); return; }
   if (c->n >= 3 && c->v[0] == 0xC7C7C7C7u) { memfuncs (r, (int) (c->v[1] % 3), (int) (c->v[2] % 16)); return; }
   if (!orcc) { r->verdict = V_DISCARD; return; }
-  mode = (int) vc_pick (c, 4); lazy = (int) vc_pick (c, 2); compat = (int) vc_pick (c, 4); nobackup = vc_pick (c, 4) == 0; use_inline = vc_pick (c, 4) == 0;
+  mode = (int) vc_pick (c, 4); lazy = (int) vc_pick (c, 2); craw = vc_u32 (c); compat = (int) (craw % 4); if (compat == 1 && (craw / 4) % 3) compat = 3 + (int) ((craw / 4) % 3);   /* 0.4.5 / 0.4.6: append calls without flags */
+  nobackup = vc_pick (c, 4) == 0; use_inline = vc_pick (c, 4) == 0;
   if (use_inline && mode == 3 && v_excluded ("inline-header-in-disable-orc-build")) { use_inline = 0; r->excluded++; }    /* known finding, kept out by construction */
   nf = 1 + (vc_pick (c, 3) == 0 ? 1 + (int) vc_pick (c, 2) : 0);
   for (f = 0; f < nf; f++) {
@@ -286,12 +288,13 @@ void vprop_case (VChoices *c, VResult *r)
     if (ps[f].is2d) r->classes |= 1u << 11;
     if (ps[f].has_acc) r->classes |= 1u << 12;
     if (ps[f].has_float) r->classes |= 1u << 14;
+    if (ps[f].saturated) r->classes |= 1u << 19;
     for (i = 0; i < ps[f].nvars; i++) if (ps[f].vars[i].kind == VK_PARAM && ps[f].vars[i].ptype != PT_INT) r->classes |= 1u << 13;
   }
   r->classes |= 1u << mode;
   r->classes |= lazy ? 1u << 4 : 1u << 5;
   if (compat == 2 || compat == 3) r->classes |= 1u << 6;
-  if (compat == 1) r->classes |= 1u << 7;
+  if (compat == 1 || compat >= 4) r->classes |= 1u << 7;
   if (nobackup) r->classes |= 1u << 8;
   if (use_inline) r->classes |= 1u << 9;
   if (nf > 1) r->classes |= 1u << 10;
@@ -315,6 +318,14 @@ void vprop_case (VChoices *c, VResult *r)
     rcx = run_cmd (cmd, err, sizeof err, path);
     /* asking for compatibility with a release older than a feature the file uses is refused by design */
     if (rcx != 0 && compats[compat] && strstr (err, "incompatible with --compat")) { r->verdict = V_DISCARD; r->classes |= 1u << 17; goto out; }
+    /* the C target models 32 registers (orc/orcprogram-c.c:orc_compiler_c_init): a function whose declared variables plus the up
+       to five load/store temporaries of one instruction exceed them is refused with a message, which is a clean rejection, not a
+       wrong result; any other refusal of a well-formed file is a violation */
+    if (rcx != 0 && strstr (err, "Failed to compile")) {
+      int big = 0;
+      for (f = 0; f < nf; f++) if (ps[f].nvars + 5 > 32) big = 1;
+      if (big) { r->verdict = V_DISCARD; r->classes |= 1u << 20; goto out; }
+    }
     if (rcx != 0) { snprintf (sig, sizeof sig, "orcc:implementation-failed"); v_fail (r, sig, "orcc --implementation %s exits with %d for a well-formed file: %.300s", opts, rcx, err); goto out; }
     v_stage (r, "orcc --header");
     snprintf (cmd, sizeof cmd, "%s --header %s -o %s/fn.h %s/fn.orc > %s/orcc.err 2>&1", orcc, opts, dir, dir, dir);
